@@ -76,9 +76,12 @@ def c07(ctx):
     domains = [{"sigma": [42, 47, 46, 10, 97], "maxp": 3, "maxn": 4}]
     if th:
         domains = [{"sigma": [42, 47, 46, 10, 97, 43], "maxp": 4, "maxn": 4},
-                   {"sigma": [42, 92, 91, 36, 94, 97], "maxp": 4, "maxn": 4}]
+                   {"sigma": [42, 92, 91, 36, 94, 97], "maxp": 4, "maxn": 4},
+                   {"sigma": [42, 92, 69, 81, 100], "maxp": 5, "maxn": 4}]
     else:
         domains.append({"sigma": [42, 92, 36, 97], "maxp": 3, "maxn": 3})
+        # the letters that regular-expression dialects give a meaning after a backslash (\\E ends a quotation, \\Q starts one)
+        domains.append({"sigma": [42, 92, 69, 81], "maxp": 4, "maxn": 3})
     evals = nontrivial = 0
     states = transitions = 0
     samples = []
@@ -629,11 +632,14 @@ def conc_histories(ctx, mode, n, race=True, auditfile=False, parts=8, opmix=None
 
 def audit_concurrent(ctx):
     th = ctx.thorough
+    # through the HTTP handlers (callers with different grants asking for the same things at the same time): every caller that is
+    # served or refused has a record of its own -- TLC counts the records against the history (no record lost, none shared)
+    r0, st0 = conc_histories(ctx, "http", 800 if th else 100, race=True, parts=16 if th else 8, opmix="acl")
     r, st = conc_histories(ctx, "db", 400 if th else 60, race=True, auditfile=True, parts=16 if th else 8)
     # and with a sink that has fsync semantics (a sync covers what was written when it began, and takes a while): when a call
     # returns, its own record must be covered by a completed sync -- also when other requests' syncs are in flight
     r2, st2 = conc_histories(ctx, "db", 600 if th else 100, race=True, parts=16 if th else 8)
-    return {"accepted": st["accepted"] + st2["accepted"], "histories": st["histories"] + st2["histories"],
+    return {"accepted": st["accepted"] + st2["accepted"] + st0["accepted"], "histories": st["histories"] + st2["histories"] + st0["histories"],
             "lines": r["counters"].get("calls", 0) + r2["counters"].get("calls", 0), "samples": r.get("samples") or []}
 
 
